@@ -21,3 +21,48 @@ fn c10_k_cache_codec() {
   assert!(r.get_day_count() == dc && r.get_index_in_year() == idx && r.get_first_julian_day().get_day() == first as f64, "day count / index / first day survive the codec");
   kani::cover!(m == -12 && y == -1, "cache_codec reachable");
 }
+
+use std::cell::RefCell;
+
+fn mk_month(y: isize, m: isize, dc: usize, idx: usize, first: i64) -> LunarMonth {
+  LunarMonth { year: LunarYear { year: y }, month: m.abs() as usize, leap: m < 0, day_count: dc, index_in_year: idx, first_julian_day: JulianDay::from_julian_day(first as f64) }
+}
+fn any_lunar_day() -> LunarDay {
+  let y: isize = kani::any(); let m: isize = kani::any(); let d: usize = kani::any(); let dc: usize = kani::any(); let idx: usize = kani::any(); let first: i64 = kani::any();
+  kani::assume(y >= 0 && y <= 9999 && m != 0 && m >= -12 && m <= 12 && dc >= 29 && dc <= 30 && d >= 1 && d <= dc && idx <= 12 && first >= 1721000 && first <= 5374000);
+  LunarDay { month: mk_month(y, m, dc, idx, first), day: d, solar_day: RefCell::new(None), sixty_cycle_day: RefCell::new(None) }
+}
+
+// C09: the hour branch index of a lunar hour is floor((hour + 1) / 2)
+#[kani::proof]
+#[kani::stub(alloc::fmt::format, stub_format)]
+fn c09_k_hour_index() {
+  let h: usize = kani::any(); let mi: usize = kani::any(); let s: usize = kani::any();
+  kani::assume(h < 24 && mi < 60 && s < 60);
+  let lh = LunarHour { day: any_lunar_day(), hour: h, minute: mi, second: s, solar_time: RefCell::new(None), sixty_cycle_hour: RefCell::new(None) };
+  assert!(lh.get_index_in_day() == (h + 1) / 2 && lh.get_index_in_day() <= 12, "index in day == floor((hour+1)/2)");
+  kani::cover!(h == 23, "hour_index reachable");
+}
+
+// (LunarHour::next carry arithmetic: the Kani harness did not finish in 12 min (abs / % chains on isize); covered by the
+//  execution check c11_linear: a lunar hour moves by exactly n double-hours.)
+
+// C17: six-day star restarts each lunar month at (|month| + day - 2) mod 6; minor Ren (month-1) mod 6 + day - 1
+#[kani::proof]
+#[kani::stub(alloc::fmt::format, stub_format)]
+fn c17_k_six_star() {
+  let d = any_lunar_day();
+  let m = d.get_month() as i64;
+  let want = spec::emod((if m < 0 { -m } else { m }) + d.get_day() as i64 - 2, 6);
+  assert!(d.get_six_star().get_index() as i64 == want, "six-day star == (|month| + day - 2) mod 6 (a leap month uses its own number)");
+  kani::cover!(m == -12, "six_star reachable (leap month)");
+}
+#[kani::proof]
+#[kani::stub(alloc::fmt::format, stub_format)]
+fn c17_k_minor_ren() {
+  let d = any_lunar_day();
+  let m = d.get_month() as i64;
+  let want = spec::emod(spec::emod((if m < 0 { -m } else { m }) - 1, 6) + d.get_day() as i64 - 1, 6);
+  assert!(d.get_minor_ren().get_index() as i64 == want, "minor Ren of the day");
+  kani::cover!(m == -12, "minor_ren reachable");
+}
